@@ -329,17 +329,16 @@ def xyzzDoubleNegMixed (x y : F) : F × F × F × F :=
   let Y3 := (S - X3) * M + L
   (X3, Y3, V, W)
 
-/-- stark-curve g1JacExtended.doubleMixed as written: adds the square of the RECEIVER's ZZ (pZZ) to M, where the
-tangent slope of the affine operand on y² = x³ + x + b needs `+ 1` — stark-curve/g1.go:821-846 -/
-def xyzzDoubleMixedStark (pZZ x y : F) : F × F × F × F :=
+/-- stark-curve g1JacExtended.doubleMixed (after the `fix:` commit 09230d9: M = 3x² + a, a = aCurveCoeff; before it the
+square of the receiver's stale ZZ was added instead) — stark-curve/g1.go doubleMixed -/
+def xyzzDoubleMixedStark (a x y : F) : F × F × F × F :=
   let U := 2 * y
   let V := U * U
   let W := U * V
   let S := x * V
   let XX := x * x
   let M := 2 * XX + XX
-  let Z := pZZ * pZZ
-  let M := M + Z
+  let M := M + a
   let S2 := 2 * S
   let L := W * y
   let X3 := M * M - S2
@@ -857,12 +856,11 @@ theorem xyzzDoubleMixed_tangent {x y : F} (h2 : (2 : F) ≠ 0) (hy : y ≠ 0) :
 theorem xyzzDoubleNegMixed_eq (x y : F) : xyzzDoubleNegMixed x y = xyzzDoubleMixed x (-y) := by
   refine Prod.ext ?_ (Prod.ext ?_ (Prod.ext ?_ ?_)) <;> simp only [xyzzDoubleNegMixed, xyzzDoubleMixed] <;> ring
 
-/-- stark-curve doubleMixed as written is the tangent rule of y² = x³ + a·x + b with a = pZZ² (the receiver's
-stale ZZ squared) — it is the stark-curve tangent (a = 1) only when pZZ² = 1 -/
-theorem xyzzDoubleMixedStark_tangent {pZZ x y : F} (h2 : (2 : F) ≠ 0) (hy : y ≠ 0) :
-    XyzzRep (2 * y) (xyzzDoubleMixedStark pZZ x y).1 (xyzzDoubleMixedStark pZZ x y).2.1
-      (xyzzDoubleMixedStark pZZ x y).2.2.1 (xyzzDoubleMixedStark pZZ x y).2.2.2
-      (tangent (pZZ ^ 2) x y).1 (tangent (pZZ ^ 2) x y).2 := by
+/-- stark-curve doubleMixed is the tangent rule of y² = x³ + a·x + b -/
+theorem xyzzDoubleMixedStark_tangent {a x y : F} (h2 : (2 : F) ≠ 0) (hy : y ≠ 0) :
+    XyzzRep (2 * y) (xyzzDoubleMixedStark a x y).1 (xyzzDoubleMixedStark a x y).2.1
+      (xyzzDoubleMixedStark a x y).2.2.1 (xyzzDoubleMixedStark a x y).2.2.2
+      (tangent a x y).1 (tangent a x y).2 := by
   refine ⟨mul_ne_zero h2 hy, ?_, ?_, ?_, ?_⟩
   · simp only [xyzzDoubleMixedStark]; ring
   · simp only [xyzzDoubleMixedStark]; ring
